@@ -25,7 +25,7 @@ ASSUMPTIONS = [
     "siblings of the failing callback inside its group may or may not have run (sync: those scheduled before it; async: all of them)",
     "in async fault runs callbacks that send nested events do not yield, so a sibling of the failing callback cannot enqueue after the queue was cleared",
     "failures injected into initial activation inside the constructor are checked for exception identity only (no machine object results)",
-    "StopIteration is only injected into machines without coroutine callbacks (inside a coroutine Python turns it into RuntimeError, PEP 479)",
+    "a StopIteration raised by a plain callback or guard may reach the caller as RuntimeError caused by it (PEP 479: it crossed a coroutine or generator frame)",
     "reference interpreter trusted",
 ]
 BUDGET_IS_TOTAL = True
@@ -94,10 +94,10 @@ def inject(case, points):
     # the kind of exception rotates with the crash point: the harness' own exception, the library's TransitionNotAllowed
     # raised by user code, builtin exceptions (StopIteration only from plain functions: inside a coroutine Python itself turns
     # it into a RuntimeError)
-    # (on the async engine plain callbacks run inside the library's coroutine wrapper too: StopIteration only for machines without
-    # any coroutine callback)
-    any_async = gen.is_async_spec(case["spec"])
-    is_async = {f"{d['name']}@{d['prov']}": any_async for d in case["spec"]["cbs"] + case["spec"].get("guards", [])}
+    # (a StopIteration raised inside a coroutine function is turned into RuntimeError by Python before it even leaves the user's
+    # callback: coroutine callbacks and guards get a ValueError / Boom instead; from plain callbacks it is raised on both
+    # engines - where it crosses a coroutine or generator frame of the library it arrives as RuntimeError caused by it)
+    is_async = {f"{d['name']}@{d['prov']}": bool(d.get("async")) for d in case["spec"]["cbs"] + case["spec"].get("guards", [])}
     faults = {}
     for p in points:
         n = p["occ"] + p.get("pos", 0) + len(p["cbid"])
